@@ -480,6 +480,8 @@ struct Fill {
     loop_var: bool,
     /// the TCP listener went through SYN -> SYN-RECEIVED -> RST -> LISTEN before the packet arrives
     aborted_prelude: bool,
+    /// flags set in addition to RST in a reset (FIN, PSH, SYN combinations): still a reset, never answered
+    rst_extra: u8,
 }
 
 impl Fill {
@@ -513,6 +515,7 @@ impl Fill {
             bcast2: false,
             loop_var: false,
             aborted_prelude: false,
+            rst_extra: 0,
         }
     }
     fn draw(src: &mut Src) -> Fill {
@@ -588,6 +591,7 @@ impl Fill {
         // (appended last: saved tapes end before this draw and read 0 = none)
         f.dns_near_miss = src.weighted(&[2, 1, 1]) as u8;
         f.aborted_prelude = src.weighted(&[2, 1]) == 1;
+        f.rst_extra = [0u8, FIN, PSH, FIN | PSH, SYN][src.weighted(&[4, 1, 1, 1, 1])];
         f
     }
 }
@@ -1082,7 +1086,7 @@ fn build_packet(c: &Coord, f: &Fill, a: &Addrs, w: &World) -> Pkt {
                     t
                 }
                 Proto::TcpAck => Tcp::new(sport, port, f.seq, Some(f.ack), 0, f.win),
-                Proto::TcpRst => Tcp::new(sport, port, f.seq, if f.rst_with_ack { Some(f.ack) } else { None }, RST, 0),
+                Proto::TcpRst => Tcp::new(sport, port, f.seq, if f.rst_with_ack { Some(f.ack) } else { None }, RST | f.rst_extra, 0),
                 _ => {
                     let mut t = Tcp::new(sport, port, f.seq, Some(f.ack), PSH, f.win);
                     if payload.is_empty() {
@@ -1286,7 +1290,12 @@ fn wellformed(c: &Coord, p: &Pkt, med: Med) -> Result<(), String> {
                 Proto::TcpRst => RST,
                 _ => ACK | PSH,
             };
-            if d.seg.flags & !ACK != want & !ACK || (c.proto != Proto::TcpRst && (d.seg.flags & ACK) != (want & ACK)) {
+            if c.proto == Proto::TcpRst {
+                // a reset may carry further flags (the fill decides): it stays a reset
+                if d.seg.flags & RST == 0 || d.seg.flags & !(ACK | RST | FIN | PSH | SYN) != 0 {
+                    return Err(format!("tcp flags {:#x}", d.seg.flags));
+                }
+            } else if d.seg.flags & !ACK != want & !ACK || (d.seg.flags & ACK) != (want & ACK) {
                 return Err(format!("tcp flags {:#x}", d.seg.flags));
             }
         }
@@ -1485,6 +1494,9 @@ fn run_cell(c: &Coord, f: &Fill, ctx: &mut Ctx) -> Result<Vec<Fail>, Fail> {
     }
     if f.aborted_prelude && c.bind != Bind::NoSockets && w.med != Med::Ieee && (w.med != Med::Eth || f.cached) {
         ctx.label("history:listener-after-aborted-handshake");
+    }
+    if c.proto == Proto::TcpRst && f.rst_extra != 0 {
+        ctx.label("pkt:reset-with-further-flags");
     }
     if pkt.near_miss {
         ctx.label(if f.dns_near_miss == 1 { "pkt:dns-response-to-another-port" } else { "pkt:dns-response-with-another-txid" });
